@@ -251,7 +251,7 @@ def record(cases):
       out.append(_run_one(c))
     except Exception as ex:   # pylint: disable=broad-except
       import traceback
-      out.append({'cfg': c, 'steps': -2, 'init': {}, 'ev': [], 'final_clock': 'error',
+      out.append({'cfg': c, 'steps': -2, 'init': {}, 'ev': [], 'final_clock': 'error', 'skip': common.harness_artifact(ex),
                   'error': f'{type(ex).__name__}: {str(ex)[:300]} | ' + ' / '.join(traceback.format_exc().splitlines()[-5:])})
   return out
 
@@ -345,6 +345,8 @@ def run(ctx):
   cfgs = _configs(q, ctx.seed)
   traces = common.parallel_map('c11', 'record', cfgs, nproc=4 if q else 8, tag='rec',
                                outdir=os.path.join(ctx.out, 'par'))
+  ctx.notes['traces_skipped_eager_mode_unavailable'] = sum(1 for t in traces if t.get('skip'))
+  traces = [t for t in traces if not t.get('skip')]
   okids, bad = _validate(ctx, traces, 'impl')
   ctx.traces += len(okids)
   nev = sum(len(t['ev']) for t in traces)
